@@ -397,10 +397,23 @@ class AbsInt:
             return r if op == 'Eq' else 1 - r
         return None
 
+    def strip(self, st, v):
+        """drop value-preserving wrap/cast nodes"""
+        n = 0
+        while v[0] in ('wrap', 'cast') and n < 6:
+            r = self.trange(v[2])
+            i = self.itvof(st, v[1], 25)
+            if r is None or i is None or i[0] < r[0] or i[1] > r[1]:
+                break
+            v = v[1]
+            n += 1
+        return v
+
     def prove_le(self, st, a, b, strict=False, d=0, _seen=None):
         """a <= b (a < b when strict) in every concrete state of st"""
         if d > 12:
             return False
+        a, b = self.strip(st, a), self.strip(st, b)
         if a == b:
             return not strict
         ia, ib = self.itvof(st, a, d + 1), self.itvof(st, b, d + 1)
@@ -455,7 +468,7 @@ class AbsInt:
         # recorded facts (one transitive step)
         seen = _seen or set()
         for (k, x, y) in st.le:
-            if k == 'ne':
+            if k == 'ne' or k == 'al':
                 continue
             if x == a and (x, y) not in seen:
                 s1 = (k == 'lt')
@@ -1013,6 +1026,9 @@ class AbsInt:
             return c
         return ('bin', op, a, c)
 
+    def is_mult(self, st, v, t, d=0):
+        return False
+
     def len_of(self, p):
         h = p[0]
         if h == 'sub':
@@ -1059,24 +1075,7 @@ class AbsInt:
                 res.env[cell] = a
                 continue
             ty = self.tname(self.cellty.get(cell))
-            if a[0] == 'opt' and c[0] == 'opt' and a[1] == c[1]:
-                # join component-wise
-                pa, pc = a[2], c[2]
-                ca, cc = a[3], c[3]
-                pay = pa if pa == pc else ('u', ('phi', key, cell, 'pay'), self.vn_ty(pa) or self.vn_ty(pc))
-                cond = ca if ca == cc else ('u', ('phi', key, cell, 'cond'), 'bool')
-                if pay != pa or pay != pc:
-                    phis.add(pay)
-                    self.join_phi(res, old, new, pay, pa, pc, widen)
-                if cond != ca or cond != cc:
-                    phis.add(cond)
-                    self.join_phi(res, old, new, cond, ca, cc, widen)
-                res.env[cell] = ('opt', a[1], pay, cond)
-                continue
-            P = ('u', ('phi', key, cell), ty or self.vn_ty(a) or self.vn_ty(c))
-            phis.add(P)
-            res.env[cell] = P
-            self.join_phi(res, old, new, P, a, c, widen)
+            res.env[cell] = self.join_val(res, old, new, key, (cell,), a, c, ty, widen, phis, 0)
         isphi = lambda v: v[0] == 'u' and len(v) > 1 and isinstance(v[1], tuple) and len(v[1]) > 1 and v[1][0] == 'phi' and v[1][1] == key
         for v in old.itv.keys() & new.itv.keys():
             if v in phis or mentions(v, isphi):
@@ -1099,6 +1098,13 @@ class AbsInt:
             for fct in src.le - oth.le:
                 if mentions(fct[1], isphi) or mentions(fct[2], isphi) or fct[0] == 'ne':
                     continue
+                if fct[0] == 'al':
+                    try:
+                        if self.is_mult(oth, fct[1], fct[2]):
+                            res.le.add(fct)
+                    except RecursionError:
+                        pass
+                    continue
                 if len(res.le) > 400:
                     break
                 try:
@@ -1107,6 +1113,47 @@ class AbsInt:
                 except RecursionError:
                     pass
         return res
+
+    def join_val(self, res, old, new, key, where, a, c, ty, widen, phis, depth):
+        """join of two values of one cell (component-wise through Option/Result and aggregates)"""
+        if a == c:
+            return a
+        if depth < 4 and a[0] == 'opt' and c[0] == 'opt' and a[1] == c[1] and (a[3] == ('c', 0) or c[3] == ('c', 0)):
+            # one side carries no payload: the payload of the other side is the payload whenever there is one
+            pay = c[2] if a[3] == ('c', 0) else a[2]
+            src = new if a[3] == ('c', 0) else old
+            for v in subterms(pay, 3):
+                if v in src.itv:
+                    pass
+            cond = self.join_val(res, old, new, key, where + ('cond',), a[3], c[3], 'bool', widen, phis, depth + 1)
+            # facts about the payload must hold on the side that has it; keep them by naming a phi only if needed
+            P = self.join_val_payload(res, old, new, key, where + ('pay',), pay, src, widen, phis)
+            return ('opt', a[1], P, cond)
+        if depth < 4 and a[0] == 'opt' and c[0] == 'opt' and a[1] == c[1]:
+            pay = self.join_val(res, old, new, key, where + ('pay',), a[2], c[2], self.vn_ty(a[2]) or self.vn_ty(c[2]), widen, phis, depth + 1)
+            cond = self.join_val(res, old, new, key, where + ('cond',), a[3], c[3], 'bool', widen, phis, depth + 1)
+            return ('opt', a[1], pay, cond)
+        if depth < 4 and a[0] == 'agg' and c[0] == 'agg' and a[1] == c[1] and a[2] == c[2] and len(a[3]) == len(c[3]) \
+                and not isinstance(a[1], tuple):
+            xs = tuple(self.join_val(res, old, new, key, where + (i,), x, y, self.vn_ty(x) or self.vn_ty(y), widen, phis, depth + 1)
+                       for i, (x, y) in enumerate(zip(a[3], c[3])))
+            return ('agg', a[1], a[2], xs)
+        P = ('u', ('phi', key) + where, ty or self.vn_ty(a) or self.vn_ty(c))
+        phis.add(P)
+        self.join_phi(res, old, new, P, a, c, widen)
+        return P
+
+    def join_val_payload(self, res, old, new, key, where, pay, src, widen, phis):
+        """payload present on one side only: a phi that inherits what that side knows about it"""
+        if pay[0] in ('c',):
+            return pay
+        if pay[0] == 'agg' and not isinstance(pay[1], tuple):
+            return ('agg', pay[1], pay[2], tuple(self.join_val_payload(res, old, new, key, where + (i,), x, src, widen, phis)
+                                                 for i, x in enumerate(pay[3])))
+        P = ('u', ('phi', key) + where, self.vn_ty(pay))
+        phis.add(P)
+        self.join_phi(res, src, src, P, pay, pay, widen)
+        return P
 
     def valsof(self, st, v):
         if v[0] == 'c':
